@@ -328,11 +328,19 @@ def proof_stage(prop):
     blocks = re.split(r"\n(?=Closed under the global context|Axioms:)", "\n" + out)
     closed = out.count("Closed under the global context")
     axioms = []
-    for m in re.finditer(r"Axioms:\n((?:.+\n?)+?)(?=\n\S|\Z)", out):
-        for line in m.group(1).split("\n"):
-            line = line.strip()
-            if line and ":" in line and not line.startswith(":"):
-                axioms.append(line.split(":")[0].strip())
+    # an axiom's name starts its line; the continuation lines of its type are indented
+    in_ax = False
+    for line in out.split("\n"):
+        if line.startswith("Axioms:"):
+            in_ax = True
+            continue
+        if line.startswith("Closed under the global context") or (in_ax and line.strip() == ""):
+            in_ax = False
+            continue
+        if in_ax:
+            m = re.match(r"^([A-Za-z_][\w.']*)\s*(:|$)", line)
+            if m:
+                axioms.append(m.group(1))
     n_print = closed + out.count("Axioms:")
     res["axioms"] = sorted(set(axioms))
     res["discharged"] = len(theorems) if n_print >= len(theorems) else n_print
